@@ -286,11 +286,11 @@ fn main() {{}}
 """
     return gen, [Obl("C10.op.is_op_assign", ["C10", "C03"], fn="Op::is_op_assign", desc="Op::is_op_assign: true exactly for += -= *= /= %= (the operators whose const test Expr::for_type runs)"),
                  Obl("C10.root_ident", ["C10"], fn="Expr::root_ident", desc="Expr::root_ident: the variable at the root of an index / field chain"),
-                 Obl("C10.for_type.binop", ["C10", "C03", "C16"], fn="for_type_binop",
+                 Obl("C10.for_type.binop", ["C10", "C03", "C16", "C02"], fn="for_type_binop",
                      desc="Expr::for_type (BinOp): `+= -= *= /= %=` and `?=` on a const name are rejected; an accepted operation has an entry in the operator table")], log
 
 
-UNITS.append(VUnit("c10_for_type", ["C10", "C03", "C16"], "const test of the writing operators; operator check", build_for_type))
+UNITS.append(VUnit("c10_for_type", ["C10", "C03", "C16", "C02"], "const test of the writing operators; operator check", build_for_type))
 
 
 # =====================================================================================================================
